@@ -609,6 +609,57 @@ pub fn long_err(sink: &mut Sink, cfg: &str, r: &mut Rng, thorough: bool) {
     }
 }
 
+/// C11 / C09 / C14 (tag `depth-lines`): where the nesting-limit error is reported. Nests of 127 / 128 / 129 / 140 containers — arrays only, objects only,
+/// alternating (either kind outermost), arrays with a BRACE as 128th opener, objects with a BRACKET as 128th opener — with every kind of gap
+/// (none, newline, blank, CR LF, newline + blanks; inside objects also before the key, the colon and the value) between the levels, so that line AND
+/// column of the 128th opening bracket both matter; complete documents, unclosed ones, and cut directly after the 128th opener (it is the last
+/// byte) and one byte later.
+pub fn depth_lines(sink: &mut Sink, cfg: &str, r: &mut Rng, thorough: bool) {
+    let seps: [&str; 5] = ["", "\n", " ", "\r\n", "\n  "];
+    for d in [127usize, 128, 129, 140] {
+        for mix in 0..6 {
+            for (si, sep) in seps.iter().enumerate() {
+                for rep in 0..(if thorough { 3 } else { 1 }) {
+                    let mut open: Vec<u8> = vec![]; let mut close: Vec<u8> = vec![];
+                    let mut at128: Option<usize> = None;
+                    for i in 0..d {
+                        let obj = match mix { 0 => false, 1 => true, 2 => i % 2 == 1, 3 => i % 2 == 0, 4 => i == 127, _ => i != 127 };
+                        if i > 0 { open.extend_from_slice(sep.as_bytes()); }
+                        if i == 127 { at128 = Some(open.len()); }
+                        if obj {
+                            // gaps inside the object follow the level separator; with `rep` > 0 they are drawn at random
+                            let g = |r: &mut Rng| -> &str { if rep == 0 { if si % 2 == 1 { *sep } else { "" } } else { *r.pick(&seps) } };
+                            open.push(b'{'); open.extend_from_slice(g(r).as_bytes()); open.extend_from_slice(b"\"a\""); open.extend_from_slice(g(r).as_bytes());
+                            open.push(b':');
+                            close.insert(0, b'}');
+                        } else { open.push(b'['); close.insert(0, b']'); }
+                    }
+                    let inner: &[u8] = *r.pick(&[&b"1"[..], b"", b"[]", b"{}", b"\n1\n", b"\"]\""]);
+                    let mut full = open.clone(); full.extend_from_slice(sep.as_bytes()); full.extend_from_slice(inner); full.extend_from_slice(&close);
+                    emit(sink, cfg, &full, r, "depth-lines");
+                    emit(sink, cfg, &open, r, "depth-lines-open");
+                    if let Some(k) = at128 {
+                        emit(sink, cfg, &open[..k + 1], r, "depth-lines-cut");
+                        if k + 2 <= open.len() { emit(sink, cfg, &open[..k + 2], r, "depth-lines-cut"); }
+                    }
+                }
+            }
+        }
+    }
+    // string literals holding brackets / escaped quotes before the deep part, and a first member before the nested one
+    for pre in ["[\"[[[{{\",", "{\"[\":\"\\\"{\",\n\"b\":", "[\"\\\\\",\n", "[[],{},[[]],\n"] {
+        for k in [126usize, 127, 128] {
+            for brace in [false, true] {
+                let mut doc = pre.as_bytes().to_vec();
+                for i in 0..k { if brace && i + 1 == k { doc.extend_from_slice(b"\n {\"k\":"); } else { doc.push(b'['); } }
+                emit(sink, cfg, &doc, r, "depth-lines-str");
+                doc.extend_from_slice(b"1");
+                emit(sink, cfg, &doc, r, "depth-lines-str");
+            }
+        }
+    }
+}
+
 /// C14 (tag `exp-edge`): explicit exponents within a few units of ±i32::MAX (beyond that `parse_exponent_overflow` takes over)
 /// combined with an implicit exponent of the same sign — fraction digits with a negative exponent, more integer digits than fit
 /// a u64 with a positive one —, so that `starting_exp ± exp` leaves the i32 range unless the arithmetic saturates.
@@ -681,6 +732,7 @@ pub fn run(sink: &mut Sink, prop: &str, thorough: bool, seed: u64) {
     if prop == "C01" || prop == "C02" || prop == "C14" { long_seq(sink, &cfg, &mut r, thorough); }
     if prop == "C01" || prop == "C02" { long_nearmiss(sink, &cfg, &mut r, thorough, !thorough && (cfg!(feature = "ap") || cfg!(feature = "rv"))); }
     if prop == "C11" || prop == "C09" { long_err(sink, &cfg, &mut r, thorough); }
+    if prop == "C11" || prop == "C09" || prop == "C14" { depth_lines(sink, &cfg, &mut r, thorough); }
     if prop == "C14" { exp_edge(sink, &cfg, &mut r, thorough); }
     let toks = tokens();
     let n = if thorough { 4 } else { 3 };
